@@ -416,6 +416,8 @@ class Recorder:
         st = r["core"].state
         got = self.snapshot(st)
         want = self.saves.get(str(r["path"]))
+        # a run made with save_every ends by writing <label>_final.state: that name then holds the END of the latest such run
+        want = getattr(self, "final_expected", {}).get(str(r["path"]), want)
         ev = {"known": want is not None}
         if want is None:
             ev.update(curSame=True, histSame=True, countersSame=True, rngSame=True)
@@ -697,6 +699,10 @@ class Recorder:
         t = getattr(self, "_term", {"nearOne": False, "essPost": _R("ess", 0.0)})
         self._emit("Terminate", evid=1, evidAt=1 if same else 2, **t)
         t.setdefault("_dbg", {}).update(evid=evid, evidRef=rz)
+        if getattr(self, "expect_final_save", False):
+            if not hasattr(self, "final_expected"):
+                self.final_expected = {}
+            self.final_expected[str(core.config.output_dir / f"{core.config.output_label}_final.state")] = self.snapshot(st)
 
     # ------------------------------------------------------------------ run control
     def raised(self, exc):
